@@ -843,6 +843,9 @@ pub enum COp {
     Post { txn: usize, size: usize },
     Commit { txn: usize, reject: bool },
     Rollback { txn: usize, reject: bool },
+    /// `discharge(fail)` which the resource rejects, then `discharge(fail)` again, which it accepts: each call
+    /// puts a discharge on the wire and reports what the coordinator answered to it
+    DischargeTwice { txn: usize, fail: bool },
 }
 
 #[derive(Clone, Debug)]
@@ -874,7 +877,11 @@ pub fn gen_ccase(rng: &mut Rng) -> CCase {
             7 | 8 if !live.is_empty() => {
                 let i = rng.below(live.len() as u64) as usize;
                 let t = live.remove(i);
-                ops.push(if rng.chance(1, 2) { COp::Commit { txn: t, reject: rng.chance(1, 5) } } else { COp::Rollback { txn: t, reject: rng.chance(1, 5) } });
+                ops.push(match rng.below(5) {
+                    0 => COp::DischargeTwice { txn: t, fail: rng.chance(1, 2) },
+                    1 | 2 => COp::Commit { txn: t, reject: rng.chance(1, 5) },
+                    _ => COp::Rollback { txn: t, reject: rng.chance(1, 5) },
+                });
             }
             _ => {}
         }
@@ -936,6 +943,20 @@ pub fn run_ccase(case: &CCase) -> Result<CObserved, String> {
                             },
                             None => results.push("skipped".into()),
                         },
+COp::DischargeTwice { txn, fail } => match txns.get_mut(*txn).and_then(|t| t.take()) {
+                            Some(mut t) => {
+                                let mut both = vec![];
+                                for _ in 0..2 {
+                                    both.push(match tokio::time::timeout(Duration::from_secs(5), t.discharge(*fail)).await {
+                                        Ok(Ok(_)) => "ok".to_string(),
+                                        Ok(Err(e)) => format!("err:{:?}", e),
+                                        Err(_) => "hang".to_string(),
+                                    });
+                                }
+                                results.push(both.join("+"));
+                            }
+                            None => results.push("skipped".into()),
+                        },
                         COp::Rollback { txn, .. } => match txns.get_mut(*txn).and_then(|t| t.take()) {
                             Some(t) => match tokio::time::timeout(Duration::from_secs(5), t.rollback()).await {
                                 Ok(Ok(_)) => results.push("ok".into()),
@@ -983,6 +1004,20 @@ pub fn run_ccase(case: &CCase) -> Result<CObserved, String> {
                                 },
                                 None => results.push("skipped".into()),
                             },
+COp::DischargeTwice { txn, fail } => match txns.get_mut(*txn).and_then(|t| t.take()) {
+                                Some(mut t) => {
+                                    let mut both = vec![];
+                                    for _ in 0..2 {
+                                        both.push(match tokio::time::timeout(Duration::from_secs(5), t.discharge(*fail)).await {
+                                            Ok(Ok(_)) => "ok".to_string(),
+                                            Ok(Err(e)) => format!("err:{:?}", e),
+                                            Err(_) => "hang".to_string(),
+                                        });
+                                    }
+                                    results.push(both.join("+"));
+                                }
+                                None => results.push("skipped".into()),
+                            },
                             COp::Rollback { txn, .. } => match txns.get_mut(*txn).and_then(|t| t.take()) {
                                 Some(t) => match tokio::time::timeout(Duration::from_secs(5), t.rollback()).await {
                                     Ok(Ok(_)) => results.push("ok".into()),
@@ -1017,6 +1052,7 @@ pub fn run_ccase(case: &CCase) -> Result<CObserved, String> {
         decl_answers.reverse();
         let mut slot_of_declare: Vec<Option<usize>> = vec![]; // per declare op: its index among the accepted ones
         let mut discharge_answers: std::collections::HashMap<usize, bool> = Default::default();
+        let mut reject_once: std::collections::HashSet<usize> = Default::default();
         // the k-th declare OP maps to slot: only accepted declares create a slot, in order
         {
             let mut acc = 0usize;
@@ -1035,6 +1071,11 @@ pub fn run_ccase(case: &CCase) -> Result<CObserved, String> {
                     COp::Commit { txn, reject } | COp::Rollback { txn, reject } => {
                         if let Some(Some(s)) = slot_of_declare.get(*txn) {
                             discharge_answers.insert(*s, *reject);
+                        }
+                    }
+                    COp::DischargeTwice { txn, .. } => {
+                        if let Some(Some(s)) = slot_of_declare.get(*txn) {
+                            reject_once.insert(*s);
                         }
                     }
                     _ => {}
@@ -1106,7 +1147,7 @@ pub fn run_ccase(case: &CCase) -> Result<CObserved, String> {
                                 Some((txn_id, fail)) => {
                                     let slot = declared.iter().position(|x| x.as_slice() == txn_id.as_slice());
                                     obs.wire.push(format!("discharge:{}:{:?}", slot.map(|s| s.to_string()).unwrap_or("?".into()), fail));
-                                    let reject = slot.and_then(|s| discharge_answers.get(&s).copied()).unwrap_or(false);
+                                    let reject = slot.and_then(|s| discharge_answers.get(&s).copied()).unwrap_or(false) || slot.map(|s| reject_once.remove(&s)).unwrap_or(false);
                                     if reject {
                                         let err = fe2o3_amqp_types::definitions::Error::new(fe2o3_amqp_types::transaction::TransactionError::Rollback, None, None);
                                         let _ = peer.send(0, Performative::Disposition(disp(DeliveryState::Rejected(Rejected { error: Some(err) }))), &[]).await;
@@ -1225,6 +1266,14 @@ pub fn check_ccase(case: &CCase, obs: &CObserved) -> Option<(String, String)> {
                 }
                 None => want_results.push("skipped"),
             },
+            COp::DischargeTwice { txn, fail } => match slot_of.get(*txn).copied().flatten() {
+                Some(s) => {
+                    want_wire.push(format!("discharge:{}:{}", s, fail));
+                    want_wire.push(format!("discharge:{}:{}", s, fail));
+                    want_results.push("err+ok");
+                }
+                None => want_results.push("skipped"),
+            },
         }
     }
     // the wire: trailing discharges of what was left over are not judged
@@ -1284,10 +1333,11 @@ pub fn check_ccase(case: &CCase, obs: &CObserved) -> Option<(String, String)> {
             "ok" => g == "ok",
             "err" => g.starts_with("err"),
             "skipped" => g == "skipped",
+            "err+ok" => g.starts_with("err") && g.ends_with("+ok"),
             _ => false,
         };
         if !ok {
-            let key = if g == "hang" { "controller:call-hangs" } else if *w == "err" { "controller:rejected-outcome-reported-as-success" } else { "controller:accepted-outcome-reported-as-failure" };
+            let key = if g == "hang" { "controller:call-hangs" } else if *w == "err+ok" { "controller:discharge-reports-without-asking-the-coordinator" } else if *w == "err" { "controller:rejected-outcome-reported-as-success" } else { "controller:accepted-outcome-reported-as-failure" };
             return Some((key.into(), format!("call {} ({:?}) returned {} where {} was expected; results {:?}; wire {:?}", i, case.ops[i], g, w, obs.results, obs.wire)));
         }
     }
